@@ -265,7 +265,12 @@ def create_formatted_exception(
         try:
             inst = BaseException.__new__(new)
         except TypeError:
-            inst = cls.__new__(new)
+            try:
+                inst = cls.__new__(new)
+            except TypeError:
+                # The constructor requires the arguments (for example
+                # an exception group: message and exceptions).
+                inst = cls.__new__(new, *exc.args)
 
         BaseException.__init__(inst, *exc.args)
         inst.__dict__ = exc.__dict__  # type: ignore[assignment]
